@@ -1,6 +1,7 @@
 package main
 
 import (
+	"fmt"
 	"go/ast"
 	"go/token"
 	"strconv"
@@ -738,7 +739,7 @@ func init() {
 
 func init() {
 	register(&Rule{
-		Name: "small-primitives", Props: []string{"C03", "C02", "C20", "C01"}, Engine: "FDE", Floor: 4,
+		Name: "small-primitives", Props: []string{"C03", "C02", "C20", "C01", "C05"}, Engine: "FDE", Floor: 10,
 		Doc: "three small functions much of the rest stands on: HeaderField.Empty is true exactly when both the name and the value are empty (the decoders take it for 'this step produced no field'; a field with an empty value is a field); HeaderField.Set and SetBytes set both the name and the value; parseUint starts from zero and takes each digit as ten times what it has plus the digit, after refusing a non-digit and a value that would not fit",
 		Run: func(p *Prog, r *Out) {
 			if fd := p.decl("(*HeaderField).Empty"); fd != nil && len(fd.Body.List) == 1 {
@@ -766,6 +767,38 @@ func init() {
 				}
 				r.fn(s.fn)
 				r.check(hasStmt(p, fd.Body.List, s.a) && hasStmt(p, fd.Body.List, s.b), s.fn+" sets the name and the value", p.pos(fd.Pos()), s.a+"; "+s.b, s.fn+" no longer sets both the name and the value of the field: the client's requests go out with the name or the value of the field before")
+			}
+			// the 31-bit quantities of the protocol (stream identifiers, the window increment) are cut to 31 bits
+			// wherever one is stored: read off the wire the top bit is reserved and ignored, set by a caller it must go out as 0
+			nMask := 0
+			for _, f := range p.Files {
+				pm := p.parentMaps()[f]
+				ast.Inspect(f, func(n ast.Node) bool {
+					as, ok := n.(*ast.AssignStmt)
+					if !ok || len(as.Lhs) != 1 || len(as.Rhs) != 1 {
+						return true
+					}
+					l := squash(p.text(as.Lhs[0]))
+					if !(strings.HasSuffix(l, ".stream") || strings.HasSuffix(l, ".increment")) {
+						return true
+					}
+					rhs := ast.Unparen(as.Rhs[0])
+					if c, isC := rhs.(*ast.CallExpr); isC && p.isConversion(c) && len(c.Args) == 1 {
+						rhs = ast.Unparen(c.Args[0])
+					}
+					be, isB := rhs.(*ast.BinaryExpr)
+					if !isB || be.Op != token.AND {
+						return true
+					}
+					k, okK := p.intConst(be.Y)
+					nMask++
+					fn := enclosingFunc(pm, as)
+					r.check(okK && k == 1<<31-1, fn+" cuts "+l+" to 31 bits", p.pos(as.Pos()), "& (1<<31 - 1)", fn+" stores "+l+" through a mask other than 2^31-1: the reserved bit is taken for part of the value, or part of the value is thrown away")
+					return true
+				})
+			}
+			if nMask < 6 {
+				r.bad("31-bit masks", "?", fmt.Sprintf("only %d stores of a stream identifier or increment through a mask were found", nMask))
 			}
 			if fd := p.decl("parseUint"); fd != nil {
 				r.fn("parseUint")
